@@ -5,10 +5,20 @@
 
    Part 1: what the concrete frontier models decide (Model/Frontier.v).
    Part 2: what the search does with a frontier model's decisions (Model/Search.v), for EVERY graph, frontier /
-           traverse / estimate / terminate function, cost type, direction and fuel.
-   The restricted-turn clause holds for runs that never re-open a vertex ([no_reopen]); A-star with an inconsistent
-   estimate can re-open one and then returns a route through a restricted turn: [c04_turn_leaks_witness] (known
-   finding K_reopen, D-REOPEN in DESIGN.md section 5).
+           traverse / estimate / terminate function, cost type (no hypothesis on costs), direction and fuel.
+   The unchanged code violates the property on four classes of inputs (known_findings.json); the theorems are
+   stated outside these classes ([~K -> P], the classes are booleans of Model/FrontierReopen.v) and each class
+   that Model/Search.v can express has a witness evaluated by vm_compute and replayed on the implementation
+   (corpus/C04):
+     K_reopen        the run re-opens a vertex (A-star, inconsistent estimate): a child keeps the turn check made
+                     against its parent's old entry                         -> c04_turn_leaks_witness
+     K_reverse_turn  reverse search: the frontier model is shown (later edge, earlier edge), so a restricted turn
+                     is looked up swapped                                    -> c04_reverse_turn_witness
+     K_query_edges   the edge-oriented wrapper never shows the query's own origin / destination edge (nor the
+                     junction turns) to the frontier model                  -> c04_query_edges_witness
+     K_ksp_turn      single-via KSP glues a forward and a reverse half: implementation side only (no KSP model here)
+   The edge clauses (class, vehicle, cut, conjunction) hold on every run of run_a_star / run_vertex_oriented, both
+   directions, without exception.
 
    This file contains only statements: each theorem is closed by [exact] of a lemma proved in Proofs/. *)
 From Coq Require Import List Arith Bool String ZArith QArith.
@@ -141,13 +151,13 @@ Section SearchLevel.
     Theorem c04_edge_local_never_leaks_edge_oriented : forall fuel d source target r,
       run_edge_oriented d (run_vertex_oriented fuel d) source target = Ok r ->
       (forall tr, In tr (r_trees r) -> forall v b, tr !! v = Some b ->
-         ok (edge_of b) = true \/ edge_of b = source \/ target = Some (edge_of b)) /\
+         K_query_edge source target (edge_of b) = false -> ok (edge_of b) = true) /\
       (forall rt, In rt (r_routes r) -> forall et, In et rt ->
-         ok (et_edge et) = true \/ et_edge et = source \/ target = Some (et_edge et)).
+         K_query_edge source target (et_edge et) = false -> ok (et_edge et) = true).
     Proof.
-      intros fuel d source target r.
-      exact (run_edge_oriented_all czero g traverse init_state (fun e => ok e = true) d (run_vertex_oriented fuel d) source target r
-               (fun s t r' => run_vertex_oriented_all clt cadd czero cfloor g frontier traverse estimate init_state terminate (fun e => ok e = true) Hok fuel d s t r')).
+      intros fuel d source target r H.
+      exact (run_edge_oriented_outside_K czero g traverse init_state (fun e => ok e = true) d (run_vertex_oriented fuel d) source target r
+               (fun s t r' => run_vertex_oriented_all clt cadd czero cfloor g frontier traverse estimate init_state terminate (fun e => ok e = true) Hok fuel d s t r') H).
     Qed.
   End EdgeLocal.
 
@@ -159,6 +169,16 @@ Section SearchLevel.
       run_vertex_oriented fuel d source target = Ok r -> no_reopen fuel d source target = true ->
       forall rt, In rt (r_routes r) -> pairs_ok restricted (map (@et_edge C St) rt).
   Proof. exact (run_vertex_oriented_turn clt cadd czero cfloor g frontier traverse estimate init_state terminate). Qed.
+
+  (* the property's clause (a restricted turn is a pair driven in travel order), outside K_reverse_turn and K_reopen *)
+  Theorem c04_turn_never_leaks : forall (restricted : nat -> nat -> bool),
+    (forall e st p, frontier e st (Some p) = Ok true -> restricted p e = false) ->
+    forall fuel d source target r,
+      K_reverse_turn d = false ->
+      K_reopen clt cadd czero cfloor g frontier traverse estimate init_state terminate fuel d source target = false ->
+      run_vertex_oriented fuel d source target = Ok r ->
+      forall rt, In rt (r_routes r) -> pairs_ok restricted (travel d (map (@et_edge C St) rt)).
+  Proof. exact (run_vertex_oriented_turn_travel clt cadd czero cfloor g frontier traverse estimate init_state terminate). Qed.
 End SearchLevel.
 
 (* the hypotheses of part 2 for the concrete models of part 1 *)
@@ -192,6 +212,25 @@ Theorem c04_turn_leaks_witness :
   /\ Witness.run_dijkstra = Err "nopath"%string.
 Proof. exact turn_leaks_witness. Qed.
 
+(* K_reverse_turn: the turn e1 -> e2 is restricted and the turn model refuses it whenever asked; the reverse search
+   (which re-opens nothing) returns e3 e2 e1 e0: the vehicle drives e1 then e2 *)
+Theorem c04_reverse_turn_witness :
+  WitnessReverseTurn.route_edges = Ok [[3; 2; 1; 0]]
+  /\ rmap (map (travel Reverse)) WitnessReverseTurn.route_edges = Ok [[0; 1; 2; 3]]
+  /\ WitnessReverseTurn.restricted 1 2 = true
+  /\ (forall e st p, WitnessReverseTurn.frontier e st (Some p) = Ok true -> WitnessReverseTurn.restricted p e = false)
+  /\ WitnessReverseTurn.reopens = false
+  /\ K_reverse_turn Reverse = true.
+Proof. exact reverse_turn_witness. Qed.
+
+(* K_query_edges: the frontier model refuses e0; the edge-oriented query from e0 to e3 returns e0 e1 e2 e3 *)
+Theorem c04_query_edges_witness :
+  WitnessQueryEdges.route_edges = Ok [[0; 1; 2; 3]]
+  /\ WitnessQueryEdges.ok 0 = false
+  /\ (forall e st prev, WitnessQueryEdges.frontier e st prev = Ok true -> WitnessQueryEdges.ok e = true)
+  /\ K_query_edge 0 (Some 3) 0 = true.
+Proof. exact query_edges_witness. Qed.
+
 (* statement pins *)
 Check @c04_tree_edges_admitted : forall (C St : Type) clt cadd czero cfloor g frontier traverse estimate init_state terminate
   fuel d source target (tr : gmap nat (branch C St)) it,
@@ -209,6 +248,22 @@ Check @c04_turn_never_leaks_no_reopen : forall (C St : Type) clt cadd czero cflo
   run_vertex_oriented clt cadd czero cfloor g frontier traverse estimate init_state terminate fuel d source target = Ok r ->
   no_reopen clt cadd czero cfloor g frontier traverse estimate init_state terminate fuel d source target = true ->
   forall rt, In rt (r_routes r) -> pairs_ok restricted (map (@et_edge C St) rt).
+Check @c04_turn_never_leaks : forall (C St : Type) clt cadd czero cfloor g frontier traverse estimate init_state terminate
+  (restricted : nat -> nat -> bool), (forall e st p, frontier e st (Some p) = Ok true -> restricted p e = false) ->
+  forall fuel d source target (r : sresult C St),
+  K_reverse_turn d = false ->
+  K_reopen clt cadd czero cfloor g frontier traverse estimate init_state terminate fuel d source target = false ->
+  run_vertex_oriented clt cadd czero cfloor g frontier traverse estimate init_state terminate fuel d source target = Ok r ->
+  forall rt, In rt (r_routes r) -> pairs_ok restricted (travel d (map (@et_edge C St) rt)).
+Check @c04_edge_local_never_leaks_edge_oriented : forall (C St : Type) clt cadd czero cfloor g frontier traverse estimate init_state terminate
+  (ok : nat -> bool), (forall e st prev, frontier e st prev = Ok true -> ok e = true) ->
+  forall fuel d source target (r : sresult C St),
+  run_edge_oriented czero g traverse init_state d
+    (run_vertex_oriented clt cadd czero cfloor g frontier traverse estimate init_state terminate fuel d) source target = Ok r ->
+  (forall tr, In tr (r_trees r) -> forall v b, tr !! v = Some b ->
+     K_query_edge source target (et_edge (b_et b)) = false -> ok (et_edge (b_et b)) = true) /\
+  (forall rt, In rt (r_routes r) -> forall et, In et rt ->
+     K_query_edge source target (et_edge et) = false -> ok (et_edge et) = true).
 Check c04_combined_permits_iff_all : forall (N : Num) l e prev,
   valid_frontier N (Combined N l) e prev = Ok true <-> Forall (fun m => valid_frontier N m e prev = Ok true) l.
 
@@ -238,6 +293,7 @@ Print Assumptions c04_edge_local_never_leaks_tree.
 Print Assumptions c04_edge_local_never_leaks_vertex_oriented.
 Print Assumptions c04_edge_local_never_leaks_edge_oriented.
 Print Assumptions c04_turn_never_leaks_no_reopen.
+Print Assumptions c04_turn_never_leaks.
 Print Assumptions c04_concrete_edge_local.
 Print Assumptions c04_concrete_turn.
 Print Assumptions c04_accepted_not_cut.
@@ -245,4 +301,6 @@ Print Assumptions c04_accepted_by_every_inner.
 Print Assumptions c04_accepted_class_allowed.
 Print Assumptions c04_accepted_restrictions_met.
 Print Assumptions c04_turn_leaks_witness.
+Print Assumptions c04_reverse_turn_witness.
+Print Assumptions c04_query_edges_witness.
 Print Assumptions c04_nonvacuous.
